@@ -43,6 +43,9 @@ func VerifT3Replay() {
 	case "slice":
 		verifT3Slice()
 		return
+	case "genblank":
+		verifT3GenericBlank()
+		return
 	case "mapmarshal":
 		verifT3MapMarshal()
 		return
@@ -193,6 +196,16 @@ func verifT3Base64() {
 	if n < 0 || n > 1<<16 {
 		return
 	}
+	// base64 text written with JSON escapes must decode as encoding/json decodes it, at every CPU level
+	for _, text := range []string{`"\/\/\/\/"`, `"YWI\/Yw=="`, `"YW\nJj"`, `"YWJj\u0059WJj"`} {
+		var a, b []byte
+		e1 := ConfigStd.UnmarshalFromString(text, &a)
+		e2 := json.Unmarshal([]byte(text), &b)
+		v.Assert((e1 == nil) == (e2 == nil), fmt.Sprintf("sonic and encoding/json disagree on accepting %s into []byte (SONIC_MODE=%q): sonic err=%v, encoding/json err=%v", text, os.Getenv("SONIC_MODE"), e1, e2))
+		if e1 == nil && e2 == nil {
+			v.Assert(string(a) == string(b), fmt.Sprintf("decoded bytes differ for %s", text))
+		}
+	}
 	tails := map[int][]string{0: {""}, 1: {"Y"}, 2: {"YQ", "Y="}, 3: {"YQ=", "YWI"}}
 	for _, tail := range tails[n%4] {
 		text := `"` + strings.Repeat("YWJj", n/4) + tail + `"`
@@ -254,6 +267,10 @@ func verifT3EncBuffer() {
 		vals = []interface{}{float32(-1.17549435e-38), float32(-3.4028235e38), float32(0), float32(1e21)}
 	case "bool":
 		vals = []interface{}{true, false}
+	case "slice_string":
+		vals = []interface{}{[]string{}, []string{""}, []string{"a\"", "\x01\x02"}, []string{"ab", "cd", "e"}, []string(nil)}
+	case "bytes":
+		vals = []interface{}{[]byte{}, []byte{1}, []byte{1, 2}, []byte{1, 2, 3}, []byte{1, 2, 3, 4}, []byte("hello, world"), []byte(nil)}
 	default:
 		for _, sv := range []string{"", "a", "a\"b", "\x01", "ab\x01\"", "\"\"\"\"", "abcd", strings.Repeat("\x01", 400), strings.Repeat("a\x02", 3000)} {
 			vals = append(vals, sv)
@@ -484,5 +501,34 @@ func verifT3MapMarshal() {
 		if e1 == nil && e2 == nil {
 			v.Assert(string(got) == string(want), fmt.Sprintf("Marshal(%#v): sonic gives %s, encoding/json %s", val, got, want))
 		}
+	}
+}
+
+// verifT3GenericBlank: the model's text ends exactly at a page boundary followed by an
+// inaccessible page; decoding it into interface{} without a copy must not fault, and must give
+// the verdict encoding/json gives.
+func verifT3GenericBlank() {
+	n := int(v.Uint64("len"))
+	ic := int(v.Uint64("ic"))
+	if n > 8 {
+		n = 8
+	}
+	text := v.StringNGuard("in", n, 8)
+	if ic > len(text) {
+		ic = len(text)
+	}
+	for _, pre := range []string{"", "[1"} {
+		_ = pre
+	}
+	var x1, x2 interface{}
+	e1 := UnmarshalString(text[ic:], &x1)
+	e2 := json.Unmarshal([]byte(text[ic:]), &x2)
+	v.Assert((e1 == nil) == (e2 == nil), fmt.Sprintf("sonic and encoding/json disagree on accepting %q into interface{}", text[ic:]))
+	// and the classic shapes: a container cut right after four or more blanks
+	for _, doc := range []string{"[1    ", "{\"a\":1     ", "[[1]\n\t  ", "    "} {
+		g := v.GuardString(doc)
+		var y interface{}
+		err := UnmarshalString(g, &y)
+		v.Assert(err != nil, fmt.Sprintf("truncated document %q accepted", doc))
 	}
 }
